@@ -413,6 +413,22 @@ func (s *Spec) Droppable() bool {
 // values 0 without unit; keys left without values) and identifies
 // representations that carry the same information: nil and empty containers,
 // a missing unit list and a unit list of only "", a nil and an empty period type.
+// AsRead is the expected side of a codec pass: Normalize, and the kernel
+// relocation symbol - which is not part of the format - as every reader derives
+// it from the file name. (Only the expected side: what the real reader derived
+// is compared against it.)
+func (s *Spec) AsRead() *Spec {
+	o := s.Normalize()
+	for i := range o.Maps {
+		m := &o.Maps[i]
+		m.KRS = ""
+		if strings.HasPrefix(m.File, "[kernel.kallsyms]") {
+			m.KRS = m.File[len("[kernel.kallsyms]"):]
+		}
+	}
+	return o
+}
+
 func (s *Spec) Normalize() *Spec {
 	o := s.Clone()
 	if len(o.Types) == 0 {
@@ -433,14 +449,6 @@ func (s *Spec) Normalize() *Spec {
 	for i := range o.Locs {
 		if len(o.Locs[i].Lines) == 0 {
 			o.Locs[i].Lines = nil
-		}
-	}
-	// the kernel relocation symbol is not part of the format: every reader derives it from the file name
-	for i := range o.Maps {
-		m := &o.Maps[i]
-		m.KRS = ""
-		if strings.HasPrefix(m.File, "[kernel.kallsyms]") {
-			m.KRS = m.File[len("[kernel.kallsyms]"):]
 		}
 	}
 	if o.PT == nil {
